@@ -68,7 +68,7 @@ const REAL_AGENT: [&str; 3] = ["stun_proto::agent::StunAgent (send, poll, handle
 const SIM_AGENT: [&str; 4] = ["clock (nanosecond offsets from one anchor Instant)", "application driving the agent (seeded operation mix)", "peer / attacker producing genuine, forged, replayed, truncated responses", "poll scheduler (exact, early, late, stalled, clock jump)"];
 const REF_AGENT: [&str; 2] = ["transaction model (sim/src/model_tx.rs)", "reference codec: HMAC/CRC/TLV walk (sim/src/refcodec.rs)"];
 
-const RULE_AGENT: &str = "batch `agent`: each evaluation is one seeded history of 5..70 (thorough 5..200) agent calls plus the drain to quiescence, checked against the transaction model after every call; one run in 25 is a scale run (100..400 calls, thorough up to 1200; 9..40, one time in ten 250..320, concurrent transactions; 12..48, one time in eight about 330, peers; bursts of sends and of incoming requests; floods of 20..300 forged responses; exactly 2^8 / 2^16 (+-1) state-changing calls between two adjacent polls; with many transactions or peers the per-call query sweep covers what the call touched plus a rotating window, and every 16th sweep everything); one run in six starts its clock at 1 ns, 2^32 ms, 2^53 ns, 10^9 s or one day; one run in 20 has a TRACE-level tracing subscriber installed; when checking C07 a twin agent is handed every call except the dropped responses and must answer identically; a run is non-trivial when it had >=2 transactions outstanding at once or at least one fired fault (late/stalled poll, forged/replayed/duplicate/unknown response, truncation, duplicate id, cancel); distinct = distinct FNV-1a hash of the full event log (every call, reply, simulated instant and query result). Batches `world`: each evaluation is one discrete-event run of 1..3 clients (real StunAgents, one transaction model each), a server running stund.rs's logic on real library code, an attacker, UDP links (drop, duplicate, delay/reorder, corrupt, truncate, coalesce, NAT, partition/heal) and RFC 4571-framed TCP streams through real TcpBuffers (segmentation, stalls, connection cut); faults stop at a drawn quiescence time, after which every transaction must complete within its schedule; profile `calm` is the same world without network faults or attacker";
+const RULE_AGENT: &str = "batch `agent`: each evaluation is one seeded history of 5..70 (thorough 5..200) agent calls plus the drain to quiescence, checked against the transaction model after every call; one run in 25 is a scale run (100..400 calls, thorough up to 1200; 9..40, one time in ten 250..320, concurrent transactions; 12..48, one time in eight about 330, peers; bursts of sends and of incoming requests; floods of 20..300 forged responses; exactly 2^8 / 2^16 (+-1) state-changing calls between two adjacent polls; with many transactions or peers the per-call query sweep covers what the call touched plus a rotating window, and every 16th sweep everything); one run in six starts its clock at 1 ns, 2^32 ms, 2^53 ns, 10^9 s or one day; one run in 20 has a TRACE-level tracing subscriber installed; when checking C07 a twin agent is handed every call except the dropped responses and must answer identically; a run is non-trivial when it had >=2 transactions outstanding at once or at least one fired fault (late/stalled poll, forged/replayed/duplicate/unknown response, truncation, duplicate id, cancel); distinct = distinct FNV-1a hash of the full event log (every call, reply, simulated instant and query result). Batches `world`: each evaluation is one discrete-event run of 1..3 clients (real StunAgents, one transaction model each), a server running stund.rs's logic on real library code, an attacker, UDP links (drop, duplicate, delay/reorder, corrupt, truncate, coalesce, NAT, partition/heal) and RFC 4571-framed TCP streams through real TcpBuffers (segmentation, stalls, connection cut); faults stop at a drawn quiescence time, after which every transaction must complete within its schedule; profile `calm` is the same world without network faults or attacker. Round 4 knobs of the `agent` batch: in one run of five a third of the send / poll / handle_stun calls are made through a kept StunRequestMut handle (its peer_address() read before and after); in one run of four, while nothing is due, some polls carry an instant up to 2 s earlier than the latest one handed in; in one run of six the agent is bound to a wildcard, IPv6, IPv4-mapped or loopback address; builders are handed to send as built, cloned or after into_owned(); one message description in five is assembled with refused builder operations interleaved";
 
 fn agent_plan(profile: &'static str, quick: u64, thorough_runs: u64, thorough: bool, probes: Vec<&'static str>) -> Plan {
     let world_profile = if profile == "forgery" { "forgery" } else { "hostile" };
@@ -93,10 +93,10 @@ fn agent_plan(profile: &'static str, quick: u64, thorough_runs: u64, thorough: b
 pub fn plan(prop: &str, thorough: bool) -> Option<Plan> {
     Some(match prop {
         "C05" => agent_plan("balanced", 300_000, 8_000_000, thorough, vec!["probe.two_due_at_same_poll", "probe.response_after_timeout", "probe.response_after_cancel", "probe.duplicate_response", "probe.id_reused_after_completion", "probe.response_after_cancel_before_report"]),
-        "C06" => agent_plan("timing", 300_000, 8_000_000, thorough, vec!["probe.two_due_at_same_poll", "probe.poll_later_than_two_deadlines", "probe.wakeup_more_than_3600s_ahead", "probe.reconfigured_mid_schedule"]),
-        "C07" => agent_plan("forgery", 300_000, 8_000_000, thorough, vec!["probe.signed_request_no_remote_credentials", "probe.remote_credentials_changed_while_signed_outstanding", "probe.mixed_integrity_pair"]),
+        "C06" => agent_plan("timing", 300_000, 8_000_000, thorough, vec!["probe.two_due_at_same_poll", "probe.poll_later_than_two_deadlines", "probe.wakeup_more_than_3600s_ahead", "probe.reconfigured_mid_schedule", "fault.poll_with_stale_clock_sample", "op.call_through_kept_handle"]),
+        "C07" => agent_plan("forgery", 300_000, 8_000_000, thorough, vec!["probe.signed_request_no_remote_credentials", "probe.remote_credentials_changed_while_signed_outstanding", "probe.mixed_integrity_pair", "fault.signed_response_altered_anywhere_before_mac"]),
         "C15" => agent_plan("balanced", 300_000, 8_000_000, thorough, vec!["probe.incoming_request_with_outstanding_id"]),
-        "C18" => agent_plan("balanced", 300_000, 8_000_000, thorough, vec!["probe.two_due_at_same_poll", "probe.poll_later_than_two_deadlines"]),
+        "C18" => agent_plan("balanced", 300_000, 8_000_000, thorough, vec!["probe.two_due_at_same_poll", "probe.poll_later_than_two_deadlines", "op.call_through_kept_handle", "probe.unusual_local_address"]),
         "C20" => {
             // the replays need a single recorded call history: agent scenario only
             let mut p = agent_plan("balanced", 60_000, 1_200_000, thorough, vec!["probe.two_due_at_same_poll"]);
@@ -131,13 +131,13 @@ pub fn plan(prop: &str, thorough: bool) -> Option<Plan> {
             "exploration",
             vec![b("tailsplice", "default", 1_200_000, 20_000_000, thorough), b("wire", "baseline", 150_000, 2_000_000, thorough), b("wire", "bigbuf", 2_000, 40_000, thorough)],
             "each run: (1) a foreign-peer message with 0..4 ordinary attributes and a drawn order/subset of {MI, MI-SHA256 (16..32 B), FP} with right or wrong MACs (sometimes an ordinary attribute smuggled in after the integrity attribute); (2) a library-built signed message whose bytes after the first integrity attribute are replaced four times by an on-path attacker (re-fingerprinted); every accepted buffer's iteration and lookups are compared with the reference exposure list, FINGERPRINT must be exposed whenever present, the attribute validate_integrity reports must be exposed, and the exposed prefix must be identical before and after the rewrite; evaluations = buffers judged; non-trivial = all (each has a tail or a rewrite); distinct = distinct buffers by hash",
-            vec!["probe.validate_integrity_ok"],
+            vec!["probe.validate_integrity_ok", "probe.policing_with_hidden_attribute"],
         ),
         "C14" => codec_plan(
             "exploration",
             vec![b("tcpstream", "random", 200_000, 6_000_000, thorough), b("tcpstream", "sweep", 15_000, 200_000, thorough), b("tcpstream", "lifetime", 1, 8, thorough)],
             "lifetime profile: one long-lived connection per evaluation, more than 2^32 bytes (65 600 maximum-size frames) through a single TcpBuffer with chunking variations along the way and densely around the 2^31/2^32 cumulative-byte marks; random profile: 1..3 connections one after the other (the previous buffer dropped, possibly with unread bytes), each one stream of 1..6 frames (lengths 0..3, around 255/256, up to 65535; payloads that look like length prefixes) cut into segments (1-byte, all at once, 1..3 bytes, random) with push/pull interleavings (pull before data, drain after each push, random pulls, single pull per push, drain only at the end, repeated pulls on an incomplete frame) and an optional connection cut, every pull compared with the frame model; sweep profile: for each drawn stream of <= 3 frames and <= 12 bytes ALL 2^(n-1) segmentations x {drain after each push, drain at end} (evaluations counts each pattern); non-trivial = >= 2 segments or >= 2 frames; distinct = distinct event-log hash / distinct swept stream",
-            vec![],
+            vec!["fault.empty_push"],
         ),
         "C17" => codec_plan(
             "fault_enumeration",
